@@ -209,6 +209,11 @@ pub enum FOp {
     Pk { seed: bool },
     Relin { seed: bool },
     Galois { seed: bool, elt: usize },
+    /// one call producing a large key set: the first `count` odd Galois elements (3, 5, 7, ...),
+    /// or the default set of `create_galois_keys` when count = 0
+    GaloisMany { seed: bool, count: usize },
+    /// key-switching key towards a freshly generated secret key
+    KSwitch { seed: bool },
     EncPk { zero: bool },
     EncSym { seeded: bool, zero: bool },
     /// two symmetric encryptions handed generators created from the same explicit seed
@@ -228,6 +233,8 @@ fn fop_json(o: &FOp) -> Value {
         FOp::Pk { seed } => json!({"pk": seed}),
         FOp::Relin { seed } => json!({"relin": seed}),
         FOp::Galois { seed, elt } => json!({"galois": seed, "elt": elt}),
+        FOp::GaloisMany { seed, count } => json!({"galois-many": seed, "count": count}),
+        FOp::KSwitch { seed } => json!({"kswitch": seed}),
         FOp::EncPk { zero } => json!({"enc-pk-zero": zero}),
         FOp::EncSym { seeded, zero } => json!({"enc-sym-seeded": seeded, "zero": zero}),
         FOp::EncSymSameState { seed } => json!({"enc-sym-same-state": seed}),
@@ -252,6 +259,12 @@ fn fop_from(v: &Value) -> Option<FOp> {
     }
     if let Some(s) = o.get("galois") {
         return Some(FOp::Galois { seed: s.as_bool()?, elt: o.get("elt")?.as_u64()? as usize });
+    }
+    if let Some(x) = o.get("galois-many") {
+        return Some(FOp::GaloisMany { seed: x.as_bool()?, count: o.get("count")?.as_u64()? as usize });
+    }
+    if let Some(x) = o.get("kswitch") {
+        return Some(FOp::KSwitch { seed: x.as_bool()? });
     }
     if let Some(s) = o.get("enc-pk-zero") {
         return Some(FOp::EncPk { zero: s.as_bool()? });
@@ -446,6 +459,23 @@ fn exec_fop(op: &FOp, sh: &FShared, rng: &mut Prng) -> Produced {
         FOp::Galois { seed, elt } => {
             if w.uses_keyswitching() {
                 ks(w.keygen.create_galois_keys_from_elts(&[*elt], *seed).as_kswitch_keys(), &mut p);
+            }
+        }
+        FOp::GaloisMany { seed, count } => {
+            if w.uses_keyswitching() {
+                let k = if *count == 0 {
+                    w.keygen.create_galois_keys(*seed)
+                } else {
+                    let elts: Vec<usize> = (1..w.spec.n).map(|i| 2 * i + 1).take(*count).collect();
+                    w.keygen.create_galois_keys_from_elts(&elts, *seed)
+                };
+                ks(k.as_kswitch_keys(), &mut p);
+            }
+        }
+        FOp::KSwitch { seed } => {
+            if w.uses_keyswitching() {
+                let other = KeyGenerator::new(ctx.clone());
+                ks(&w.keygen.create_keyswitching_key(other.secret_key(), *seed), &mut p);
             }
         }
         FOp::EncPk { zero } => {
@@ -748,14 +778,26 @@ fn run_freshness(scn: &FScn) -> Result<(Vec<(String, String, String)>, u64, u64)
 }
 
 fn gen_fscn(rng: &mut Prng, run_seed: u64, real_entropy: bool) -> Option<FScn> {
-    let opts = SpecOpts { schemes: vec![BFV, BGV, CKKS], ns: vec![8, 16, 32, 32, 64], min_primes: 1, max_primes: 3, qbits: vec![30, 36, 40, 45, 50, 60], tbits: vec![8, 13, 17], batching: false };
+    let mut opts = SpecOpts { schemes: vec![BFV, BGV, CKKS], ns: vec![8, 16, 32, 32, 64], min_primes: 1, max_primes: 3, qbits: vec![30, 36, 40, 45, 50, 60], tbits: vec![8, 13, 17], batching: false };
+    // one history in eight is about large key sets: one call producing dozens of key components
+    // (many Galois elements x many decomposition primes) followed by other key generations
+    let big_keys = rng.chance(1, 8);
+    if big_keys {
+        opts.ns = vec![64, 64, 128];
+        opts.min_primes = 3;
+        opts.max_primes = 6;
+        opts.qbits = vec![30, 36, 40];
+    }
     let spec = gen::draw_spec(rng, &opts)?;
     let nthreads = if real_entropy { 1 } else { *rng.pick(&[1usize, 1, 2, 3]) };
     let n = spec.n;
     let threads = (0..nthreads)
-        .map(|_| {
-            (0..rng.range(2, 8))
-                .map(|_| match rng.below(13) {
+        .map(|t| {
+            let nops = rng.range(2, 8);
+            (0..nops)
+                .map(|k| match if big_keys && t == 0 && k == 0 { 13 } else { rng.below(15) } {
+                    13 => FOp::GaloisMany { seed: rng.coin(), count: if rng.chance(1, 4) { 0 } else if big_keys { rng.range(n / 4, n - 1) } else { rng.range(2, n - 1) } },
+                    14 => FOp::KSwitch { seed: rng.coin() },
                     12 => FOp::MixedSeedSaving { seed: rng.next_u64() >> 1 },
                     11 => FOp::ExpandAcross,
                     0 => FOp::NewKeygen,
@@ -1288,7 +1330,7 @@ fn one_run(i: usize, run_seed: u64, tier: Tier) -> RunOut {
             // adversarial stream through the generic Rng seam
             let sampler = *rng.pick(&["ternary", "centered_binomial", "uniform"]);
             let moduli = gen_moduli(&mut rng, 2);
-            let n = *rng.pick(&[8usize, 64, 256]);
+            let n = *rng.pick(&[8usize, 64, 64, 256, 256, 1024, 2048]);
             let (pname, _) = PATTERNS[rng.usize_below(PATTERNS.len())];
             let aligned = rng.coin();
             let mut win_start = rng.below(6 * n as u64);
